@@ -74,9 +74,9 @@ def run(ctx, rep):
                "loop body blocks only in self._conn.serve(...)" if serve_calls and not blocking else
                "the wait loop blocks in %s besides/instead of serve()" % [A.src(c) for c in blocking], ctx.loc(w), kind="site")
         for c in serve_calls:
-            okt = len(c.args) >= 1 and K.self_attr(c.args[0], "_ttl") is not None
+            okt = len(c.args) >= 1 and K.self_attr(c.args[0], K.expiry_field(ctx)) is not None
             rep.ob("R14.2", "AsyncResult.wait: serve() is given the result's own expiry", okt,
-                   "serve(self._ttl): an absolute deadline shared by all iterations" if okt else
+                   "serve(self.<expiry>): an absolute deadline shared by all iterations" if okt else
                    "serve() is called with `%s`, not the result's own Timeout object (the clock restarts or the waiter "
                    "oversleeps)" % (A.src(c.args[0]) if c.args else "<default>"), ctx.loc(c), kind="site")
 
